@@ -40,6 +40,12 @@ func backSlice(v ssa.Value, visit func(ssa.Value) bool) {
 			return
 		case *ssa.MakeSlice:
 			return
+		case *ssa.FreeVar:
+			// a variable of the enclosing function captured by a function literal: what was bound to it
+			if b := freeVarBinding(x); b != nil {
+				walk(b)
+			}
+			return
 		}
 		if in, ok := v.(ssa.Instruction); ok {
 			for _, op := range in.Operands(nil) {
